@@ -100,6 +100,9 @@ OnFrame(s, e) ==
                      THEN [st |-> "SrvClosing", out |-> <<"CloseOk">>,
                            res |-> {"ServerClosedConnection"}]
                 ELSE Fail(s, {"FrameUnexpected"})
+           \* the handshake is complete: a frame that arrives behind OpenOk - even in the same read - is left
+           \* to the connection (since repair f990546; before, FrameUnexpected if it was read in OpenOk's pass)
+           [] s = "Done" -> Stay(s)
            [] OTHER -> Fail(s, {"FrameUnexpected"})
 
 \* everything that is not a parsed frame
@@ -205,7 +208,8 @@ ReactionsOnly == out = ExpectedOut(hist)
 OnlyAfterOpenOk ==
     /\ ("Ok" \in res) =>
           LET n == NonHb(hist) IN
-          /\ Len(n) = 3 /\ GoodStart(n[1]) /\ GoodTune(n[2]) /\ n[3].k = "openok"
+          \* (what follows OpenOk is the connection's business, not the handshake's)
+          /\ Len(n) >= 3 /\ GoodStart(n[1]) /\ GoodTune(n[2]) /\ n[3].k = "openok"
           /\ res = {"Ok"}
     /\ (st = "Done") <=> (res = {"Ok"})
 
